@@ -2,6 +2,7 @@ import DarkluaModel.C13.Model
 import DarkluaModel.C13.Spec
 import DarkluaModel.C13.Lemmas
 import DarkluaModel.C13.LemmasNum
+import DarkluaModel.C13.LemmasGen
 /-!
 C13 — String and number literals survive generation exactly: the property theorems.
 
@@ -434,5 +435,100 @@ example : ∃ (ops : FromOps Int) (neg : Int → Int) (div : Int → Int → Int
     by intro x _ _ h _; simp at h; exact h.symm, by intro x _ _ _ h; simp at h,
     by intro x h; have hx : x < 0 := by simpa using h
        show -((x.natAbs : Nat) : Int) = x; omega⟩, by decide, by decide⟩
+
+/-! ## the generators' own entry points
+
+The theorems above are about the shared helpers of `generator/utils.rs`. What a generator
+actually emits is decided by its own `write_number` / `write_string` /
+`write_interpolated_string`; these theorems lift the round trips to those entry points
+(`Model.denseWriteNumber`, `readableWriteNumber`, `tokenBasedWriteNumber`,
+`generatorWriteString`, `writeInterpolatedString`), which the run-time tie compares with the
+three real generators. -/
+
+/-- every generator writes, for every number node, exactly the text of `utils::write_number`
+(the dense generator through its own NaN / infinity / hexadecimal / binary arms) -/
+theorem generator_number_text {F : Type} (ops : NumOps F) (g : Gen) (lit : NumLit F) :
+    genWriteNumber ops g lit = writeNumber ops lit :=
+  genWriteNumber_eq ops g lit
+
+/-- `number_roundtrip` at each generator's `write_number` -/
+theorem generator_number_roundtrip {F : Type} (ops : NumOps F) (laws : NumLaws ops) (g : Gen) (x : F)
+    (exponent : Option (Int × Bool)) (hn : ops.isNaN x = false) (hi : ops.isInf x = false) :
+    ∃ y, ops.parse (genWriteNumber ops g (.decimal x exponent)) = some y ∧
+      (y = x ∨ (ops.isZero x = true ∧ ops.eq y x = true)) := by
+  rw [generator_number_text]
+  exact number_roundtrip ops laws x exponent hn hi
+
+/-- NaN and the infinities at each generator's `write_number` -/
+theorem generator_number_special {F : Type} (ops : NumOps F) (g : Gen) (x : F)
+    (exponent : Option (Int × Bool)) :
+    (ops.isNaN x = true → genWriteNumber ops g (.decimal x exponent) = [40, 48, 47, 48, 41]) ∧
+    (ops.isNaN x = false → ops.isInf x = true → ops.signNeg x = false →
+      genWriteNumber ops g (.decimal x exponent) = [40, 49, 47, 48, 41]) ∧
+    (ops.isNaN x = false → ops.isInf x = true → ops.signNeg x = true →
+      genWriteNumber ops g (.decimal x exponent) = [40, 45, 49, 47, 48, 41]) := by
+  rw [generator_number_text]
+  exact number_special_text ops x exponent
+
+/-- hexadecimal and binary nodes at each generator's `write_number` -/
+theorem generator_integer_literal_roundtrip {F : Type} (ops : NumOps F) (g : Gen) (n : Nat)
+    (hn : n ≤ 18446744073709551615) (up : Bool) :
+    luauNumber? (genWriteNumber ops g (.hex n none up)) = some (.int n) ∧
+    luauNumber? (genWriteNumber ops g (.binary n up)) = some (.int n) := by
+  rw [generator_number_text, generator_number_text]
+  exact ⟨hex_literal_roundtrip ops n hn up, binary_literal_roundtrip ops n hn up⟩
+
+example : genWriteNumber floatOps .dense (.decimal 0x7ff8000000000000 none) = [40, 48, 47, 48, 41] :=
+  (generator_number_special floatOps .dense _ none).1 (by decide +kernel)
+
+/-- `string_roundtrip` at the generators' `write_string`: after the blank that may precede it,
+the text is one Luau string token denoting `v`; and a long-bracket literal is never glued to a
+preceding `[` (`t[ [[x]] ]`), which would open a different long bracket. -/
+theorem generator_string_roundtrip (lastPush v : List UInt8) :
+    decodeLuau ((generatorWriteString lastPush v).dropWhile (· == 32)) = some v ∧
+    (lastPush.getLast? = some 91 → (generatorWriteString lastPush v).head? ≠ some 91) := by
+  obtain ⟨c, t, hw, hc⟩ := writeString_head v
+  have hc32 : (c == 32) = false := by rcases hc with rfl | rfl | rfl <;> decide
+  have hdrop : (writeString v).dropWhile (· == 32) = writeString v := by
+    rw [hw]; simp [List.dropWhile, hc32]
+  unfold generatorWriteString
+  simp only
+  by_cases h91 : (writeString v).head? = some 91
+  · simp only [h91, beq_self_eq_true, if_true]
+    by_cases hl : lastPush.getLast? = some 91
+    · simp only [hl, beq_self_eq_true, if_true]
+      refine ⟨?_, fun _ => by simp⟩
+      have : ([32] ++ writeString v).dropWhile (· == 32) = (writeString v).dropWhile (· == 32) := by
+        simp [List.dropWhile]
+      rw [this, hdrop]; exact string_roundtrip v
+    · have hl' : (lastPush.getLast? == some 91) = false := by simpa using hl
+      simp only [hl', Bool.false_eq_true, if_false, List.nil_append]
+      rw [hdrop]
+      exact ⟨string_roundtrip v, fun h => absurd h hl⟩
+  · have h91' : ((writeString v).head? == some 91) = false := by simpa using h91
+    simp only [h91', Bool.false_eq_true, if_false]
+    rw [hdrop]
+    exact ⟨string_roundtrip v, fun _ => h91⟩
+
+example : (generatorWriteString [116, 91] okLongValue).head? ≠ some 91 :=
+  (generator_string_roundtrip [116, 91] okLongValue).2 (by decide)
+
+/-- Whole interpolated strings as every generator writes them (backtick, literal pieces through
+`write_interpolated_string_segment`, `{` expression `}`, backtick) are read back by the Luau
+rules as the same pieces — for part lists as the parser produces them (no empty literal piece,
+no two literal pieces in a row) and expression texts without braces. -/
+theorem interpolated_string_roundtrip (parts : List InterpPart) (hwf : wfParts parts) :
+    decodeInterpString (writeInterpolatedString parts) = some (parts.map toPiece) := by
+  have hlen : parts.length + 1 ≤ (bodyOf parts ++ [96]).length + 1 := by
+    have := bodyOf_length parts hwf
+    simp; omega
+  have e : writeInterpolatedString parts = 96 :: (bodyOf parts ++ [96]) := by
+    simp [writeInterpolatedString, bodyOf]
+  rw [e]
+  exact interpLoop_parts parts.length parts rfl hwf _ hlen
+
+example : decodeInterpString (writeInterpolatedString [.str [97, 96, 123], .val [120], .str [10]]) =
+    some [.str [97, 96, 123], .val [120], .str [10]] :=
+  interpolated_string_roundtrip _ (by simp [wfParts])
 
 end DarkluaModel.C13
